@@ -12,7 +12,7 @@ import (
 func init() {
 	register(&propDef{
 		ID:       "C17",
-		Explain:  "Decided for target.Config (structural necessary conditions): the load gate on every path (nil config, Validate error or revision error => error return with no handler call, no handleDiffs and no store of the configuration; otherwise handleDiffs(config) and then the store, both inside one critical section of c.mu, nil returned); the revision order table (first load accepted; new<current and new=current refused; new>current accepted); the per-target classification table of handleDiffs evaluated per iteration (gone => Delete(k) only; unchanged => no handler call; otherwise exactly one Update carrying the key, the new target and the NEW configuration's request; leftovers => exactly one Add each with the new configuration's request); the diff is read-only on both configurations (only the local copy map is mutated) and Current returns a clone; every handler call is nil-guarded. Also decided: Validate's rejection table (empty name, nil target, no address, empty request key, request key absent => error; otherwise nil); every proto.Equal in handleDiffs compares whole elements of the two configurations, never a part of them. Round-5 addition: Config.configuration is read and written only under Config.mu - the revision gate, the diff and the commit form one critical section.",
+		Explain:  "Decided for target.Config (structural necessary conditions): the load gate on every path (nil config, Validate error or revision error => error return with no handler call, no handleDiffs and no store of the configuration; otherwise handleDiffs(config) and then the store, both inside one critical section of c.mu, nil returned); the revision order table (first load accepted; new<current and new=current refused; new>current accepted); the per-target classification table of handleDiffs evaluated per iteration (gone => Delete(k) only; unchanged => no handler call; otherwise exactly one Update carrying the key, the new target and the NEW configuration's request; leftovers => exactly one Add each with the new configuration's request); the diff is read-only on both configurations (only the local copy map is mutated) and Current returns a clone; every handler call is nil-guarded. Also decided: Validate's rejection table (empty name, nil target, no address, empty request key, request key absent => error; otherwise nil); every proto.Equal in handleDiffs compares whole elements of the two configurations, never a part of them. Round-5 addition: Config.configuration is read and written only under Config.mu - the revision gate, the diff and the commit form one critical section. Round-6 addition: every loop of handleDiffs over requests or targets is left only through its header (no break / return inside: a scan that stops early leaves entries behind it in map order unexamined).",
 		NotCover: "convergence of the replayed handler calls to the current configuration over histories (needs map/value semantics); Validate's own completeness",
 		Run:      runC17,
 	})
